@@ -70,6 +70,12 @@ def noise(rng, kind):
         a = noise(rng, "free")[:rng.choice([0, 3, 30, 200])]
         b = noise(rng, "free")[:rng.choice([0, 1, 5, 17, 18, 19, 30, 200])]
         return a + b"\xaa\x55" + b
+    if kind == "train":
+        # several false markers in a row, each followed by fewer than 20 bytes: a run of rejected candidates
+        out = b""
+        for _ in range(rng.choice([2, 5, 6, 9])):
+            out += b"\xaa\x55" + noise(rng, "free")[:rng.choice([3, 10, 18, 18, 25])]
+        return out
     if kind == "half":
         return noise(rng, "free")[:rng.choice([0, 5, 50])] + b"\xaa"
     raise ValueError(kind)
@@ -79,7 +85,9 @@ def gen(rng, idx, tier):
     segs = []
     n = rng.choice([3, 6, 12, 25, 40])
     tag = rng.randrange(0, 40000)
-    enabled = [k for k in ("free", "aa", "ends_aa", "marker", "half", "corrupt", "trunc") if rng.random() < 0.6] or ["free"]
+    enabled = [k for k in ("free", "aa", "ends_aa", "marker", "half", "corrupt", "trunc", "train") if rng.random() < 0.6] or ["free"]
+    if "corrupt" in enabled and rng.random() < 0.2:
+        enabled = ["corrupt"] * 4 + enabled           # runs of damaged packets
     long_noise = tier == "thorough" and idx % 50 == 0
     cut_after = []
     for _ in range(n):
